@@ -6,6 +6,7 @@ package main
 import (
 	"encoding/json"
 	"fmt"
+	"github.com/biogo/biogo/feat"
 	"math"
 	"os"
 	"os/exec"
@@ -41,13 +42,20 @@ func offset(e alphabet.Encoding) int {
 }
 
 // printable range of encoded bytes for an encoding.
+// place is a location (a feature that does not start at 0) for a sequence to sit on.
+type place struct{ s, e int }
+
+func (p place) Start() int             { return p.s }
+func (p place) End() int               { return p.e }
+func (p place) Len() int               { return p.e - p.s }
+func (p place) Name() string           { return "chr" }
+func (p place) Description() string    { return "" }
+func (p place) Location() feat.Feature { return nil }
+
 func printable(e alphabet.Encoding, b int) bool {
 	lo := 33
 	if e == alphabet.Illumina1_5 {
 		lo = 'B'
-	}
-	if e == alphabet.Solexa {
-		lo = 59 // Solexa scores start at -5
 	}
 	return b >= lo && b <= 126
 }
@@ -123,6 +131,10 @@ func check(c *enum.Ctx, k kase) (nontrivial bool) {
 			if k.Kind == "phred-container" {
 				p := quality.NewPhred("p", []alphabet.Qphred{alphabet.Qphred(k.V), 7}, e2)
 				p.Offset = 3
+				if k.Via == "located" {
+					p.SetLocation(place{5, 90})
+					p.SetOffset(3)
+				}
 				_ = p.QEncode(3)
 				orig := p
 				if k.Via == "clone" {
@@ -157,6 +169,10 @@ func check(c *enum.Ctx, k kase) (nontrivial bool) {
 				}
 			}
 			q.Offset = 3
+			if k.Via == "located" {
+				q.SetLocation(place{5, 90})
+				q.SetOffset(3)
+			}
 			if k.Via != "empty" {
 				_ = q.QEncode(3)
 				_ = fmt.Sprintf("%q", q)
@@ -184,7 +200,7 @@ func check(c *enum.Ctx, k kase) (nontrivial bool) {
 		}) {
 			return true
 		}
-		hist := fmt.Sprintf("built as %s, encoded, %sSetEncoding(%s)", encNames[e2], map[string]string{"": "", "clone": "copied, ", "empty": "(rendered while empty, then filled) ", "zero": "(then rendered with %.0q) ", "field": "(Encode field assigned instead of) "}[k.Via], encNames[e])
+		hist := fmt.Sprintf("built as %s, encoded, %sSetEncoding(%s)", encNames[e2], map[string]string{"": "", "clone": "copied, ", "empty": "(rendered while empty, then filled) ", "zero": "(then rendered with %.0q) ", "field": "(Encode field assigned instead of) ", "located": "(on a location starting at 5, offset set with SetOffset) "}[k.Via], encNames[e])
 		if reported != e {
 			fail(k.Kind+"/Encoding", "%s: Encoding() = %s", hist, encNames[reported])
 		}
@@ -231,6 +247,10 @@ func check(c *enum.Ctx, k kase) (nontrivial bool) {
 		if c.Guard("solexa-container/panic", k, func() {
 			p := quality.NewSolexa("s", []alphabet.Qsolexa{alphabet.Qsolexa(k.V), 7}, alphabet.Encoding(k.Enc2))
 			p.Offset = 3
+			if k.Via == "located" {
+				p.SetLocation(place{5, 90})
+				p.SetOffset(3)
+			}
 			_ = p.QEncode(3)
 			orig := p
 			if k.Via == "clone" {
@@ -253,7 +273,7 @@ func check(c *enum.Ctx, k kase) (nontrivial bool) {
 		}) {
 			return true
 		}
-		hist := fmt.Sprintf("quality.Solexa built as %s, encoded, %sSetEncoding(Solexa)", encNames[alphabet.Encoding(k.Enc2)], map[string]string{"": "", "clone": "copied, ", "field": "(Encode field assigned instead of) "}[k.Via])
+		hist := fmt.Sprintf("quality.Solexa built as %s, encoded, %sSetEncoding(Solexa)", encNames[alphabet.Encoding(k.Enc2)], map[string]string{"": "", "clone": "copied, ", "field": "(Encode field assigned instead of) ", "located": "(on a location starting at 5, offset set with SetOffset) "}[k.Via])
 		if int(enc) != b {
 			fail("solexa-container/QEncode", "%s: QEncode of score %d = %d, want %d", hist, k.V, enc, b)
 		}
@@ -431,8 +451,8 @@ func check(c *enum.Ctx, k kase) (nontrivial bool) {
 }
 
 func run(c *enum.Ctx) {
-	c.Rule("complete enumeration: kind x encoding x all 256 values (x 5 offsets for the probability grids); the same encode/decode/probability laws through quality.Phred, quality.Solexa and linear.QSeq (QEncode, QDecode, EAt, SetE, %q) after every two-step encoding history (built with encoding A, encoded once, optionally copied, SetEncoding(B) or the exported Encode field assigned B) x all values; each kind of law also as the first use of the package in a fresh process (12 cold-start helper processes), and with eight goroutines making the first uses at once (6 processes, free-running); a case is non-trivial when the oracle applies (value inside the printable/representable range the statement names); distinct by (kind,encoding,value,offset)")
-	c.Assume("printable range: bytes 33..126 (Illumina1_5: 'B'..126; Solexa: 59..126, i.e. scores from -5)", "sentinel scores 254/255 (Phred) and 127/-128 (Solexa) are excluded", "math.Pow/math.Log10 of this Go toolchain are the analytic reference (1e-12 relative tolerance)")
+	c.Rule("complete enumeration: kind x encoding x all 256 values (x 5 offsets for the probability grids); the same encode/decode/probability laws through quality.Phred, quality.Solexa and linear.QSeq (QEncode, QDecode, EAt, SetE, %q) after every two-step encoding history (built with encoding A, encoded once, optionally copied, SetEncoding(B) or the exported Encode field assigned B; also on a location that starts at 5 with the offset set through SetOffset) x all values; each kind of law also as the first use of the package in a fresh process (12 cold-start helper processes), and with eight goroutines making the first uses at once (6 processes, free-running); a case is non-trivial when the oracle applies (value inside the printable/representable range the statement names); distinct by (kind,encoding,value,offset)")
+	c.Assume("printable range: bytes 33..126 (Illumina1_5: 'B'..126; Solexa: scores from -31)", "sentinel scores 254/255 (Phred) and 127/-128 (Solexa) are excluded", "math.Pow/math.Log10 of this Go toolchain are the analytic reference (1e-12 relative tolerance)")
 	add := func(k kase) {
 		c.Doing(0, k)
 		c.Eval()
@@ -506,7 +526,7 @@ func enumerate(add func(kase)) {
 		}
 		for _, e := range phredEnc {
 			for _, e2 := range append([]alphabet.Encoding{alphabet.Solexa}, phredEnc...) {
-				for _, via := range []string{"", "clone", "field"} {
+				for _, via := range []string{"", "clone", "field", "located"} {
 					add(kase{Kind: "phred-container", Enc: int(e), Enc2: int(e2), Via: via, V: v})
 					add(kase{Kind: "qseq-container", Enc: int(e), Enc2: int(e2), Via: via, V: v})
 				}
@@ -516,7 +536,7 @@ func enumerate(add func(kase)) {
 			}
 		}
 		for _, e2 := range []alphabet.Encoding{alphabet.Solexa, alphabet.Sanger, alphabet.Illumina1_3} {
-			for _, via := range []string{"", "clone", "field"} {
+			for _, via := range []string{"", "clone", "field", "located"} {
 				add(kase{Kind: "solexa-container", Enc2: int(e2), Via: via, V: v - 128})
 			}
 		}
